@@ -5,8 +5,9 @@
 2. The driver records what the real geometry classes answer for the whole scanner database and for
    generated scanners (coordinates in natural units, reported lines, round trips, detector-pair lines,
    TOF bins, arc correction of recorded rows), both for fresh objects and along RE-USE HISTORIES of the
-   same object (ProjDataInfo after reduce_segment_range / set_min,max_tangential_pos_num / set_num_views +
-   set_azimuthal_angle_offset / set_tof_mash_factor; one ArcCorrection object set up several times in a
+   same object (ProjDataInfo after reduce_segment_range (also asymmetric) / set_min,max_tangential_pos_num / set_num_views +
+   set_azimuthal_angle_offset / set_tof_mash_factor / set_ring_spacing / set_bed_position / arc-corrected:
+   set_tangential_sampling, set_ring_radii_for_all_views; one ArcCorrection object set up several times in a
    row, also across scanners); TLC (Trace_Coordinates) must explain every line exactly as for a fresh object."""
 import os, json
 from . import lib
@@ -48,7 +49,7 @@ def run(ctx):
     # 3. validate (chunks in parallel)
     chunks = []
     for t in traces:
-        chunks += lib.split_trace(t, os.path.join(ctx.work, "chunks"), maxlines=900 if q else 2500)
+        chunks += lib.split_trace(t, os.path.join(ctx.work, "chunks"), maxlines=1400 if q else 2500)
     res = lib.validate_parallel("Trace_Coordinates", [c[0] for c in chunks], jobs=4 if q else 8, timeout=2400)
     known_ids = {k["id"]: k for k in ctx.known}
     nconf = 0
@@ -109,7 +110,7 @@ def run(ctx):
     # vacuity guard: every kind of observation the driver claims to record must be present
     if not ctx.replay:
         missing = [k for k in ("Row", "RT0", "RT1", "RT2", "PL", "TB", "Arc0", "Arc1", "Arc2", "Arc3",
-                                    "hist:fresh", "hist:ranges", "hist:views-tof", "hist:arc-fresh", "hist:arc-reused") if kinds.get(k, 0) == 0]
+                                    "hist:fresh", "hist:ranges", "hist:views-tof", "hist:params", "hist:arc-fresh", "hist:arc-reused") if kinds.get(k, 0) == 0]
         if missing or nconf < 50:
             raise lib.ModelFailure("recorded trace lacks observations of kind %s (%d configurations)" % (missing, nconf))
     ctx.extra["configurations"] = nconf
